@@ -373,10 +373,15 @@ def case_structure(ctx, hooks, rng):
         x = cls(**kw)
         if ferm:
             gen.add_phases(rng, x, rng.choice([0, 1, 2]))
+        hist_ = []
+        if vals.mode == "unique" and not mixed and rng.random() < 0.1:
+            x, hist_ = gen.identity_history(sr, rng, x)
         for groups in gsets:
             feat = list(feature)
             if mixed:
                 feat.append(f"mixed-dtype-blocks-{len(dts_)}")
+            if hist_:
+                feat.append("subject-with-history")
             if any(len(g) == 1 for g in groups):
                 feat.append("single-axis-group")
             if any(list(g) != sorted(g) for g in groups):
